@@ -205,10 +205,11 @@ class ModelFittingDataTree(ProblemSingleObjective):
                     rows=rows,
                     cols=cols,
                 )
-                self._configure_weights(
-                    weights=weights,
-                    weights_from_file=weights_from_file,
-                )
+
+            self._configure_weights(
+                weights=weights,
+                weights_from_file=weights_from_file,
+            )
 
             self.all_target_data = targets.isel(indexers=target_fit_range.to_dict())
             self.target_full_scale = targets
